@@ -423,8 +423,9 @@ fn mdns(x: &Value, enc: &[u8], trunc: i64, d: &mut Vec<String>) {
             got.sort();
             wa.sort();
             if got != wa { d.push(format!("decode: addresses {:?} instead of {:?}", addrs, wa)); }
-            let txt: Vec<String> = svc.txt.map(|(k, v)| format!("{k}={v}")).collect();
-            let wt: Vec<String> = x["txt"].as_array().unwrap().iter().map(|t| label(t)).collect();
+            // key and value separately: the key ends at the first "="
+            let txt: Vec<(String, String)> = svc.txt.map(|(k, v)| (k.to_string(), v.to_string())).collect();
+            let wt: Vec<(String, String)> = x["txt"].as_array().unwrap().iter().map(|t| (label(&t["k"]), label(&t["v"]))).collect();
             if txt != wt { d.push(format!("decode: txt {:?} instead of {:?}", txt, wt)); }
         }
         Ok(None) => d.push("decode: nothing resolvable found in the reference answer".into()),
